@@ -43,47 +43,100 @@ BinFreq(fc, k, N, dt) == RAdd(fc, RDiv(RI(FftBin(k, N)), RMul(RI(N), dt)))
 (* 1b. The same phase with bounded cost.  Exact rationals built from       *)
 (* doubles reach 40 limbs here and the kernel's long division is cubic, so *)
 (* trace validation evaluates the phase in a floating format: BigInt       *)
-(* mantissa cut (towards zero) to the BFL = 10 leading limbs, i.e. to      *)
-(* >= 136 significant bits, and a binary exponent.  The cancelling         *)
+(* mantissa cut (towards zero) to its L leading limbs, i.e. to more than   *)
+(* 15 (L - 1) significant bits, and a binary exponent.  The cancelling     *)
 (* difference f - fref is formed exactly first:                            *)
 (*     phase = K DM f (1/fref - 1/f)^2 = K DM (f - fref)^2 / (fref^2 f)    *)
-(* so only products and one quotient remain, each cut costing a relative   *)
-(* error < 2^-135.  ChirpPhaseFix returns floor(phase' * 2^75) with        *)
-(*     |phase' - phase| <= 12 * 2^-135 |phase| + 2^-75   cycles,           *)
-(* below 2^-73 cycle for |phase| < 2^60 -- 1e-22, against a comparison     *)
+(* so only products and one quotient remain; with L = BFL = 8 each of the  *)
+(* 12 cuts costs a relative error < 2^-105.  ChirpPhaseFix returns         *)
+(* floor(phase' * 2^75) with                                               *)
+(*     |phase' - phase| <= 2^-101 |phase| + 2^-75   cycles,                *)
+(* i.e. < 2^-60 cycle (1e-18) for |phase| < 2^40, against a comparison     *)
 (* tolerance of 2e-6.  PhaseFixAgrees (checked on sampled events by        *)
 (* Trace_Dedisp and on the lattice by MC_Dedisp) compares it with the      *)
 (* exact ChirpPhase.                                                       *)
 (***************************************************************************)
-BFL == 10
+BFL == 8
 BF(m, e) == [m |-> m, e |-> e]                                  \* m * 2^e
-BFTrunc(m, e) == LET n == Len(m.m)
-                 IN IF n <= BFL THEN BF(m, e)
-                    ELSE BF(Mk(m.n, NShiftR(m.m, n - BFL)), e + 15 * (n - BFL))
-BFOf(b) == BFTrunc(b, 0)
-BFMul(x, y) == BFTrunc(Mul(x.m, y.m), x.e + y.e)
-BFSq(x) == BFMul(x, x)
+BFTrunc(m, e, L) == LET n == Len(m.m)
+                    IN IF n <= L THEN BF(m, e)
+                       ELSE BF(Mk(m.n, NShiftR(m.m, n - L)), e + 15 * (n - L))
+BFOf(b, L) == BFTrunc(b, 0, L)
+BFMul(x, y, L) == BFTrunc(Mul(x.m, y.m), x.e + y.e, L)
 \* floor(x / y * 2^s), y > 0
 BFQuot(x, y, s) == LET sh == x.e - y.e + s
                    IN IF sh >= 0 THEN FloorDiv(Shl(x.m, sh), y.m)
                       ELSE FloorDiv(x.m, Shl(y.m, -sh))
-PFBITS == 75
+PFLIMBS == 5
+PFBITS == 75                                                    \* 15 * PFLIMBS
 \* f > 0, fref > 0
 ChirpPhaseFix(kdm, f, fref) ==
   LET d == RSub(f, fref)
-      num == BFMul(BFMul(BFOf(kdm.p), BFSq(BFOf(d.p))), BFMul(BFSq(BFOf(fref.q)), BFOf(f.q)))
-      den == BFMul(BFMul(BFOf(kdm.q), BFSq(BFOf(d.q))), BFMul(BFSq(BFOf(fref.p)), BFOf(f.p)))
+      M(x, y) == BFMul(x, y, BFL)
+      O(b) == BFOf(b, BFL)
+      dp == O(d.p)  dq == O(d.q)  rp == O(fref.p)  rq == O(fref.q)
+      num == M(M(O(kdm.p), M(dp, dp)), M(M(rq, rq), O(f.q)))
+      den == M(M(O(kdm.q), M(dq, dq)), M(M(rp, rp), O(f.p)))
   IN BFQuot(num, den, PFBITS)
 PhaseFixRat(v) == R(v, Pow2(PFBITS))
 PhaseFixAgrees(kdm, f, fref) ==
   RClose(PhaseFixRat(ChirpPhaseFix(kdm, f, fref)), ChirpPhase(kdm, f, fref),
-         RAdd(RPow2(-73), RMul(RAbs(ChirpPhase(kdm, f, fref)), RPow2(-130))))
-\* K|DM| |1/fref - 1/f| * g  (g a positive Rat), times 2^s, rounded down
+         RAdd(RPow2(-75), RMul(RAbs(ChirpPhase(kdm, f, fref)), RPow2(-101))))
+\* an upper bound of  K|DM| |1/fref - 1/f| g 2^s  (g a positive Rat): three
+\* limbs suffice (relative error < 10 * 2^-30), then inflated by 2^-20
 ChirpSlopeFix(kdm, f, fref, g, s) ==
   LET d == RSub(f, fref)
-      num == BFMul(BFMul(BFOf(Abs(kdm.p)), BFOf(Abs(d.p))), BFMul(BFMul(BFOf(fref.q), BFOf(f.q)), BFOf(g.p)))
-      den == BFMul(BFMul(BFOf(kdm.q), BFOf(d.q)), BFMul(BFMul(BFOf(fref.p), BFOf(f.p)), BFOf(g.q)))
-  IN BFQuot(num, den, s)
+      M(x, y) == BFMul(x, y, 3)
+      O(b) == BFOf(b, 3)
+      num == M(M(O(Abs(kdm.p)), O(Abs(d.p))), M(M(O(fref.q), O(f.q)), O(g.p)))
+      den == M(M(O(kdm.q), O(d.q)), M(M(O(fref.p), O(f.p)), O(g.q)))
+      q == BFQuot(num, den, s)
+  IN Add(Add(q, Mk(FALSE, NShr(q.m, 20))), FromInt(2))
+
+\* Sample delay K DM (1/f^2 - 1/fref^2) rate = K DM (fref - f)(fref + f) rate / (f^2 fref^2)
+\* as floor(delay' * 2^45), |delay' - delay| <= 2^-100 |delay| + 2^-45: the
+\* cancelling factor fref - f is exact, the rest are products (cuts to 8 limbs).
+\* A delay that is at least 1e-6 away from every integer (half-integer) has the
+\* same ceiling (rounding) as this approximation whenever |delay| < 2^50.
+DFBITS == 45
+SampleDelayFix(kdm, f, fref, rate) ==
+  LET a == RSub(fref, f)
+      b == RAdd(fref, f)
+      M(x, y) == BFMul(x, y, BFL)
+      O(x) == BFOf(x, BFL)
+      fq == O(f.q)  rq == O(fref.q)  fp == O(f.p)  rp == O(fref.p)
+      num == M(M(M(O(kdm.p), O(a.p)), M(O(b.p), O(rate.p))), M(M(fq, fq), M(rq, rq)))
+      den == M(M(M(O(kdm.q), O(a.q)), M(O(b.q), O(rate.q))), M(M(fp, fp), M(rp, rp)))
+  IN BFQuot(num, den, DFBITS)
+DelayFixRat(v) == R(v, Pow2(DFBITS))
+SampleDelayAgrees(kdm, f, fref, rate) ==
+  LET x == SampleDelay(kdm, f, fref, rate)
+  IN RClose(DelayFixRat(SampleDelayFix(kdm, f, fref, rate)), x,
+            RAdd(RPow2(-45), RMul(RAbs(x), RPow2(-100))))
+
+\* cos / sin of v / 2^75 cycles (v any BigInt): Fix!CosSin for a dyadic
+\* argument, with shifts in place of long divisions.  frac = v mod 2^75 has
+\* five limbs; its three leading bits are the octant.
+CosSinDy(v) ==
+  LET lowm == NLow(v.m, PFLIMBS)                      \* |v| mod 2^75
+      fr == IF v.n /\ lowm # <<>> THEN NSub(NPow2(PFBITS), lowm) ELSE lowm
+      top == Limb(fr, PFLIMBS)
+      o == top \div 4096                              \* octant 0..7
+      rem == NTrim([i \in 1..PFLIMBS |-> IF i = PFLIMBS THEN top % 4096 ELSE Limb(fr, i)])
+      x == Mk(FALSE, NShr(NMul(PI4.m, rem), PFBITS - 3))   \* pi/4 * rem / 2^72, Fix
+      xx == IF o % 2 = 0 THEN x ELSE Sub(PI4, x)
+      c == IF IsZero(xx) THEN FOne ELSE FCos0(xx)
+      s == IF IsZero(xx) THEN FZero ELSE FSin0(xx)
+  IN CASE o = 0 -> [c |-> c,      s |-> s]
+       [] o = 1 -> [c |-> s,      s |-> c]
+       [] o = 2 -> [c |-> Neg(s), s |-> c]
+       [] o = 3 -> [c |-> Neg(c), s |-> s]
+       [] o = 4 -> [c |-> Neg(c), s |-> Neg(s)]
+       [] o = 5 -> [c |-> Neg(s), s |-> Neg(c)]
+       [] o = 6 -> [c |-> s,      s |-> Neg(c)]
+       [] o = 7 -> [c |-> c,      s |-> Neg(s)]
+\* H = exp(-2 pi i v / 2^75)
+ChirpHFix(v) == LET cs == CosSinDy(v) IN C(cs.c, Neg(cs.s))
 
 (***************************************************************************)
 (* 2. Coherent dedispersion: crop to the valid times                       *)
